@@ -562,6 +562,9 @@ func (w *world) check() *failure {
 					if !ok {
 						continue
 					}
+					if len(guardOp(model.Op{Kind: "Get", Table: tn, Key: k}, w.m, w.cfg.V2)) > 0 {
+						continue
+					}
 					g := d.Apply(model.Op{Kind: "Get", Table: tn, Key: k})
 					if g.Err != "" {
 						return newFail("invariant get failed", "%s table %s key %s: %s", d.Name(), tn, model.CanonItem(k), g.Err)
